@@ -103,13 +103,13 @@ def gen_cond(rng, depth=2):
     if op in ("=~", "!=~"):
         lhs, lit = [T("col", "name", COL_GROUPS)], rng.choice(["'^a'", "'t$'", "'[0-9]'"])
     elif op in ("like", "notlike"):
-        lhs, lit = [T("col", rng.choice(["name", "ext"]), COL_GROUPS)], rng.choice(["'%a%'", "'t_t'", "'%.txt'"])
+        lhs, lit = [T("col", rng.choice(["name", "ext"]), COL_GROUPS)], rng.choice(["'%a%'", "'t_t'", "'%.txt'", "'%y f%'", "'my %'"])
     elif op in (">", ">=", "<", "<="):
         lhs, lit = [T("col", rng.choice(["size", "uid", "hardlinks"]))], str(rng.choice([0, 1, 5, 100, "1k"]))
     else:
         k = rng.random()
         if k < 0.4:
-            lhs, lit = [T("col", rng.choice(["name", "ext", "dir"]), COL_GROUPS)], rng.choice(["'txt'", "'a.txt'", "'*.txt'", "'t'"])
+            lhs, lit = [T("col", rng.choice(["name", "ext", "dir"]), COL_GROUPS)], rng.choice(["'txt'", "'a.txt'", "'*.txt'", "'t'", "'my file.txt'", "'a b c'", "\"my file.txt\"", "'my*'"])
         elif k < 0.7:
             lhs, lit = [T("col", rng.choice(["size", "uid"]))], str(rng.choice([0, 5, 12]))
         elif k < 0.85:
@@ -216,6 +216,9 @@ def directed_queries():
         col = "name" if lit.startswith("'") else "size"
         out.append([Tok("col", "name"), Tok("kw", "from"), Tok("path", "t"), Tok("kw", "where"), Tok("col", col), Tok("op", g[0], g),
                     Tok("lit", lit), Tok("kw", "into"), Tok("fmt", "list")])
+    for lit in ("'my file.txt'", '"my file.txt"', "'a b c'", "`my file.txt`"):
+        out.append([Tok("col", "path"), Tok("kw", "from"), Tok("path", "t"), Tok("kw", "where"), Tok("col", "name"), Tok("op", "=", group_of(OP_GROUPS, "=")),
+                    Tok("lit", lit), Tok("kw", "into"), Tok("fmt", "list")])
     for f in FORMATS:
         out.append([Tok("col", "name"), Tok("comma", ",", glue="L"), Tok("col", "size"), Tok("kw", "from"), Tok("path", "t"), Tok("kw", "order"),
                     Tok("kw", "by"), Tok("col", "name"), Tok("kw", "into"), Tok("fmt", f)])
@@ -238,7 +241,9 @@ def render(toks):
                 cur = t.text
     if cur:
         words.append(cur)
-    return words
+    # a blank inside a quoted literal is a split point like any other: `'my` `file.txt'` as two shell words is the same
+    # literal (literals only occur after the search roots, so the word indices of the roots do not move)
+    return [p for w_ in words for p in w_.split(" ")]
 
 
 def split_args(words, mask):
@@ -386,7 +391,7 @@ def build_tree(w):
     for d in ("t", "t/sub", "t/sub/deep", "t2", "t/.git"):
         os.makedirs(os.path.join(w, d), exist_ok=True)
     files = {"t/a.txt": b"hello\nworld\n", "t/b.TXT": b"x", "t/sub/c.rs": b"fn main() {}\n", "t/sub/deep/d": b"",
-             "t/.hidden": b"h", "t2/e.txt": b"12345", "t2/tot": b"tt", "t/.gitignore": b"*.rs\n", "t/sub/x.zip": b"PK\x05\x06" + b"\0" * 18}
+             "t/.hidden": b"h", "t/my file.txt": b"m", "t/sub/a b c": b"abc", "t2/my file.txt": b"mm", "t2/e.txt": b"12345", "t2/tot": b"tt", "t/.gitignore": b"*.rs\n", "t/sub/x.zip": b"PK\x05\x06" + b"\0" * 18}
     for p, c in files.items():
         with open(os.path.join(w, p), "wb") as f:
             f.write(c)
